@@ -9,6 +9,7 @@ Line-protocol driver for C13 (see `harness/src/props/c13.rs`, same grammar).
   resp ae=<hdr|-> st=<n> hce=<v|-> hvary=<v|-> ct=<mime|-> kind=<full|sized|stream|none>
        body=<c|r><seed> ev=<tok,…> j=<n,…>
   req  ce=<v|-> body=<c|r><seed> n=<len> ev=<tok,…> j=<n,…>
+  wire <as resp, plus hcl=<v|->>      (response as framed on an h1 connection)
 
 `<hdr>`: header lines separated by `|`, blanks written as `_`.  `ev` tokens: a number = the next
 chunk with that many bytes, `p` = Pending, `e` = body error.
@@ -120,7 +121,7 @@ def showList (l : List String) : String := if l.isEmpty then "-" else joinWith "
 
 def showNats (l : List Nat) : String := if l.isEmpty then "-" else joinWith "," (l.map toString)
 
-def runResp (ws : List String) : String :=
+def runRespWith (wire : Bool) (ws : List String) : String :=
   let ae : Option AE := match kv ws "ae" with
     | some "-" => none
     | some h => some (parseAE (headerLines h))
@@ -155,10 +156,26 @@ def runResp (ws : List String) : String :=
         | none => "chunks=* n=! sum=!"
       else "chunks=* n=- sum=-"
     else "chunks=" ++ showNats (chunks.map List.length) ++ " " ++ showSum chunks.flatten
+  if wire then
+    let fr := h1Framing r.size r.head.noChunking (optVal ws "hcl")
+    let sumStr :=
+      if isEnc then
+        match toyDecode chunks.flatten with
+        | some d => showSum d
+        | none => "n=! sum=!"
+      else showSum chunks.flatten
+    "st=" ++ toString r.head.status ++
+      " ce=" ++ showList (hGetAll r.head.headers "content-encoding") ++
+      " vary=" ++ showList (hGetAll r.head.headers "vary") ++
+      " te=" ++ (if fr.1 then "chunked" else "-") ++
+      " cl=" ++ (match fr.2 with | some v => v | none => "-") ++ " " ++ sumStr ++ " end=" ++ fin
+  else
   "st=" ++ toString r.head.status ++
     " ce=" ++ showList (hGetAll r.head.headers "content-encoding") ++
     " vary=" ++ showList (hGetAll r.head.headers "vary") ++
     " size=" ++ showSize r.size ++ " " ++ bodyStr ++ " end=" ++ fin
+
+def runResp (ws : List String) : String := runRespWith false ws
 
 /-- cut the (encoded) payload by the chunk tokens; what is left over forms a last chunk -/
 def mkPayload : List Tok → Bytes → List BodyEv
@@ -192,6 +209,7 @@ def run (line : String) : String :=
   | "neg" :: r => runNeg r
   | "resp" :: r => runResp r
   | "req" :: r => runReq r
+  | "wire" :: r => runRespWith true r
   | _ => "bad-case"
 
 end ActixModel.Drv.C13
